@@ -1,6 +1,6 @@
 (* MapTreeInv.v — the invariants of the map slab tree (C05 / C02) as definitions; the map
-   analogue of ArrayInv.v.  Definitions and executable checkers only (preservation proofs are a
-   follow-up; the links proved so far are in proofs/MapTree_proofs.v).
+   analogue of ArrayInv.v.  Definitions and executable checkers only (preservation is proved in
+   proofs/MapTree_proofs.v, MapRebalance_proofs.v, MapFixup_proofs.v, MapTreeOps_proofs.v, Map_proofs.v).
 
    [mwfn d n]: subtree n of height d is internally consistent:
    - leaf: its elements are a well-formed level-0 hkeyElements in the sense of MapElemsInv.ewf_g
